@@ -16,6 +16,13 @@ while i < len(args):
 if not names:
     names = sorted(os.listdir(os.path.join(V, "seeded")))
 head = subprocess.run("git -C /repo rev-parse --short HEAD", shell=True, stdout=subprocess.PIPE, text=True).stdout.strip()
+RELATED = {"C09": ["C13"], "C13": ["C12", "C09"], "C11": ["C16", "C19"], "C16": ["C11", "C19"], "C02": ["C13", "C03"],
+           "C19": ["C18"], "C18": ["C19", "C20"], "C20": ["C18"], "C05": ["C06"], "C06": ["C38", "C07", "C13"],
+           "C25": ["C26", "C27"], "C26": ["C25", "C27"], "C27": ["C26", "C25"], "C28": ["C34", "C29"], "C34": ["C31", "C28"],
+           "C29": ["C28", "C32"], "C31": ["C34"], "C32": ["C29", "C35"], "C35": ["C32"], "C08": ["C07", "C37"],
+           "C07": ["C08", "C12"], "C12": ["C13"], "C17": ["C16"], "C22": ["C37"], "C30": ["C37"], "C33": ["C29"]}
+
+
 def one(name):
     d = os.path.join(V, "seeded", name)
     pid = name.split("-")[0]
@@ -37,6 +44,16 @@ def one(name):
     else:
         res["status"] = "inconclusive"
         res["tail"] = out[-800:]
+    if res["status"] == "missed":
+        # the change may violate a neighbouring property's statement too: try the related checks
+        for other in RELATED.get(pid, []):
+            q = subprocess.run([os.path.join(V, "bin", "try-seed.sh"), patch, other, tier], stdout=subprocess.PIPE, stderr=subprocess.STDOUT, text=True)
+            keys = re.findall(r"^  key=(\S+)", q.stdout, re.M)
+            if q.returncode == 1 and keys:
+                res["status"] = "missed-by-own-check-detected-by-" + other
+                res["detected_by"] = other
+                res["violation_keys"] = keys
+                break
     json.dump(res, open(os.path.join(d, "detect.json"), "w"), indent=1)
     return name, res
 with cf.ThreadPoolExecutor(max_workers=jobs) as ex:
